@@ -43,29 +43,54 @@ Definition fappend (p : path) (x : bytes) (d : fs) : fs :=
   end.
 
 Inductive op :=
-| OpenTrunc (p : path)              (* open(p, "w"): create or truncate, new empty buffer *)
+| OpenTrunc (p : path)              (* open(p, "w") / O_TRUNC: create or truncate, new empty buffer *)
+| OpenNoTrunc (p : path)            (* os.open(p, O_WRONLY|O_CREAT) / "r+": create or keep the content; writing
+                                       starts at offset 0 and overwrites the old content from its head *)
 | Write (p : path) (bs : bytes)     (* fh.write: into the user-space buffer *)
 | Flush (p : path)                  (* fh.flush: buffer handed to the kernel *)
 | Fsync (p : path)                  (* os.fsync(fh.fileno()) *)
 | Close (p : path)                  (* fh.close / end of the with block: flush, drop the handle *)
 | Rename (a b : path).              (* os.replace(a, b) *)
 
-Record st := { disk : fs; bufs : fs }.   (* bufs: pending buffer of every open file *)
+(* bufs:  pending buffer of every open file
+   tails: for a file opened WITHOUT truncation, the content it had at that moment; while (and
+          after) it is written, [disk] holds what this handle has written so far and the
+          file really contains that followed by the part of the old content not yet
+          overwritten (see [visible]).  Empty as long as every open truncates. *)
+Record st := { disk : fs; bufs : fs; tails : fs }.
 
-Definition init (d : fs) : st := {| disk := d; bufs := [] |}.
+Definition init (d : fs) : st := {| disk := d; bufs := []; tails := [] |}.
+
+Definition visible (tl : fs) (p : path) (c : bytes) : bytes :=
+  match lookup p tl with
+  | Some t => c ++ skipn (List.length c) t
+  | None => c
+  end.
+
+Fixpoint overlay (tl : fs) (d : fs) : fs :=
+  match d with
+  | [] => []
+  | (p, c) :: r => (p, visible tl p c) :: overlay tl r
+  end.
 
 (* None = the call raises (no handle, no such file); nothing further is executed *)
 Definition step (o : op) (s : st) : option st :=
   match o with
-  | OpenTrunc p => Some {| disk := fset p [] (disk s); bufs := fset p [] (bufs s) |}
+  | OpenTrunc p => Some {| disk := fset p [] (disk s); bufs := fset p [] (bufs s); tails := fdel p (tails s) |}
+  | OpenNoTrunc p =>
+      Some {| disk := fset p [] (disk s); bufs := fset p [] (bufs s);
+              tails := match lookup p (disk s) with
+                       | Some c => fset p (visible (tails s) p c) (tails s)
+                       | None => fdel p (tails s)
+                       end |}
   | Write p bs =>
       match lookup p (bufs s) with
-      | Some b => Some {| disk := disk s; bufs := fset p (b ++ bs) (bufs s) |}
+      | Some b => Some {| disk := disk s; bufs := fset p (b ++ bs) (bufs s); tails := tails s |}
       | None => None
       end
   | Flush p =>
       match lookup p (bufs s) with
-      | Some b => Some {| disk := fappend p b (disk s); bufs := fset p [] (bufs s) |}
+      | Some b => Some {| disk := fappend p b (disk s); bufs := fset p [] (bufs s); tails := tails s |}
       | None => None
       end
   | Fsync p =>
@@ -75,7 +100,7 @@ Definition step (o : op) (s : st) : option st :=
       end
   | Close p =>
       match lookup p (bufs s) with
-      | Some b => Some {| disk := fappend p b (disk s); bufs := fdel p (bufs s) |}
+      | Some b => Some {| disk := fappend p b (disk s); bufs := fdel p (bufs s); tails := tails s |}
       | None => None
       end
   | Rename a b =>
@@ -85,7 +110,11 @@ Definition step (o : op) (s : st) : option st :=
                   bufs := match lookup a (bufs s) with
                           | Some pb => fset b pb (fdel a (bufs s))
                           | None => fdel b (bufs s)
-                          end |}
+                          end;
+                  tails := match lookup a (tails s) with
+                           | Some t => fset b t (fdel a (tails s))
+                           | None => fdel b (tails s)
+                           end |}
       | None => None
       end
   end.
@@ -113,7 +142,7 @@ Fixpoint crash_disks (pending : fs) (d : fs) : list fs :=
   | (p, b) :: t => flat_map (fun x => crash_disks t (fappend p x d)) (prefixes b)
   end.
 
-Definition crash_at (s : st) : list fs := crash_disks (bufs s) (disk s).
+Definition crash_at (s : st) : list fs := map (overlay (tails s)) (crash_disks (bufs s) (disk s)).
 
 (* every crash point: before the first op, after every op, and inside every pending buffer *)
 Definition crash_states (ops : list op) (s : st) : list fs :=
@@ -122,6 +151,10 @@ Definition crash_states (ops : list op) (s : st) : list fs :=
 (* The protocol issued by the code as it stands (temporary file, flush, fsync, rename). *)
 Definition save_ops (tmp target : path) (chunks : list bytes) : list op :=
   OpenTrunc tmp :: map (Write tmp) chunks ++ [Flush tmp; Fsync tmp; Close tmp; Rename tmp target].
+
+(* The same protocol with a temporary file that is NOT truncated when it is opened. *)
+Definition notrunc_ops (tmp target : path) (chunks : list bytes) : list op :=
+  OpenNoTrunc tmp :: map (Write tmp) chunks ++ [Flush tmp; Fsync tmp; Close tmp; Rename tmp target].
 
 (* The protocol issued before commit d7405e0 (open the storage file itself with "w"). *)
 Definition inplace_ops (target : path) (chunks : list bytes) : list op :=
@@ -133,7 +166,7 @@ Definition obytes_beq := opt_beq bytes_beq.
 
 Definition op_eqb (a b : op) : bool :=
   match a, b with
-  | OpenTrunc p, OpenTrunc q | Flush p, Flush q | Fsync p, Fsync q | Close p, Close q => Nat.eqb p q
+  | OpenTrunc p, OpenTrunc q | OpenNoTrunc p, OpenNoTrunc q | Flush p, Flush q | Fsync p, Fsync q | Close p, Close q => Nat.eqb p q
   | Write p x, Write q y => Nat.eqb p q && bytes_beq x y
   | Rename a1 b1, Rename a2 b2 => Nat.eqb a1 a2 && Nat.eqb b1 b2
   | _, _ => false
@@ -191,7 +224,7 @@ Definition check_case
         let '(k, j, dt, dtmp) := o in
         match state_after k ops (init d0) with
         | Some s =>
-            let c := crash_pick j (bufs s) (disk s) in
+            let c := overlay (tails s) (crash_pick j (bufs s) (disk s)) in
             obytes_beq (lookup 0 c) (interp old new dt) && obytes_beq (lookup 1 c) (interp stale new dtmp)
         | None => false
         end) obs.
